@@ -101,7 +101,7 @@ PROPS = {
     'C18': {
         'lean': 'C18',
         'corr': [_f('comp_xfer', 'exec_corr')],
-        'oracles': [_x('C18')],
+        'oracles': [_x('C18'), _f('comp_download', 'legacy_history_oracle')],
         'modelled': ['executor shutdown(wait=True) as a stage with shut/join', 'isolation: permits are the only shared state (structural argument + explorer)'],
     },
     'C01': {
@@ -117,7 +117,7 @@ PROPS = {
         'lean': 'C02',
         'explore': True,
         'corr': [_f('comp_download', 'corr'), _f('comp_defer', 'corr')],
-        'oracles': [_f('comp_download', 'oracle'), _f('comp_defer', 'manager_oracle_c02')],
+        'oracles': [_f('comp_download', 'oracle'), _f('comp_defer', 'manager_oracle_c02'), _f('comp_download', 'legacy_history_oracle_c02')],
         'modelled': ['download.GetObjectTask._main / ImmediatelyWriteIOGetObjectTask', 'download.DownloadChunkIterator',
                      'utils.StreamReaderProgress', 'download.DeferQueue',
                      'legacy and process-pool loops: judged end to end only'],
@@ -133,7 +133,7 @@ PROPS = {
     'C15': {
         'lean': 'C15',
         'corr': [_f('comp_args', 'corr')],
-        'oracles': [_f('comp_args', 'oracle'), _f('comp_args', 'history_oracle')],
+        'oracles': [_f('comp_args', 'oracle'), _f('comp_args', 'history_oracle'), _f('comp_args', 'caller_dict_oracle')],
         'modelled': ['which table filters the kwargs of which client call (upload/copies/download/delete/__init__/processpool)',
                      'utils.get_filtered_dict', 'utils.set_default_checksum_algorithm', 'manager._validate_all_known_args'],
     },
@@ -146,6 +146,7 @@ PROPS = {
     },
     'C16': {
         'lean': 'C16',
+        'explore': True,
         'corr': [_f('comp_defer', 'corr'), _f('comp_download', 'corr')],
         'oracles': [_f('comp_defer', 'oracle'), _f('comp_defer', 'manager_oracle')],
         'modelled': ['download.DownloadNonSeekableOutputManager.queue_file_io_task with 2-3 request threads: oracle under the scheduler', 'download.DeferQueue (heap modelled as a list sorted by (offset, length))'],
@@ -160,8 +161,8 @@ PROPS = {
     },
     'C14': {
         'lean': 'C14',
-        'corr': [_f('comp_plan', 'corr')],
-        'oracles': [_f('comp_plan', 'oracle')],
+        'corr': [_f('comp_plan', 'corr'), _f('comp_upload', 'corr')],
+        'oracles': [_f('comp_plan', 'oracle'), _f('comp_upload', 'oracle')],
         'modelled': ['utils.calculate_num_parts', 'utils.calculate_range_parameter',
                      'utils.ChunksizeAdjuster', 'upload.*InputManager.yield_upload_part_bodies (offsets)',
                      'copies._get_transfer_size', 'download ranged plan', 'processpool ranged plan'],
@@ -172,3 +173,11 @@ PROPS = {
 for _p, _spec in PROPS.items():
     if _spec.get('explore'):
         _spec['oracles'] = list(_spec['oracles']) + [_x(_p)]
+
+# the serial manager (executor_cls=NonThreadedExecutor): model correspondence on random plans
+for _p in ('C03', 'C04', 'C05', 'C06', 'C12'):
+    PROPS[_p]['corr'] = list(PROPS[_p]['corr']) + [_f('comp_serial', 'corr')]
+
+# the serial manager (executor_cls=NonThreadedExecutor): every fault position, ordinary exception and Ctrl-C
+for _p in ('C02', 'C03', 'C04', 'C05', 'C06', 'C08', 'C09', 'C12', 'C16'):
+    PROPS[_p]['oracles'] = list(PROPS[_p]['oracles']) + [_f('comp_serial', 'oracle_' + _p)]
